@@ -304,4 +304,69 @@ theorem baseRRRR_end_to_end (r : InstRow) (hr : r ∈ instTable.toList) (henc : 
     exact ⟨f, hfmem, by simp [hfull]; simpa [addImm, addReg] using hdesc⟩
   simp [judge, hany]
 
+/-! ### kEncodingBaseCSel (csel, csinc, csinv, csneg) -/
+
+def cselRowOk (name : String) (opcode : Nat) : Bool :=
+  (w32 opcode &&& 0x001FF3FF#32 == 0#32) &&
+  [rtGp32, rtGp64].all fun t =>
+    (formsNamed name).any fun f =>
+      isCSelForm f (wOfRt t) (w32 opcode ||| (BitVec.ofNat 32 (xOf { rt := t, id := 0 } kWX) <<< 31))
+
+set_option maxRecDepth 1000000 in
+theorem rows_baseCSel_have_forms :
+    instTable.toList.all (fun r => r.enc != encBaseCSel ||
+      (match baseCSel[r.idx]? with
+       | some d => cselRowOk r.name d.opcode
+       | none => false)) = true := by decide +kernel
+
+theorem csel_accepts_facts (opc : Nat) (o0 o1 o2 : Reg) (cond : BitVec 64) (ws : List (BitVec 32)) (h : emitCSel opc o0 o1 o2 cond = .ok ws) :
+    checkGpType o0 kWX = true ∧ o0.rt = o1.rt ∧ o1.rt = o2.rt ∧
+    checkGpId o0 idZR = true ∧ checkGpId o1 idZR = true ∧ checkGpId o2 idZR = true ∧ cond.toNat < 16 ∧
+    ws = [w32 opc ||| addImm (xOf o0 kWX) 31 ||| addReg o2.id 16 ||| addImm (condCodeToOpcodeField cond.toNat) 12 ||| addReg o1.id 5 ||| addReg o0.id 0] := by
+  unfold emitCSel at h
+  repeat (split at h <;> try (simp [invalidInstruction, invalidPhysId, invalidImmediate] at h))
+  simp [ok1] at h
+  simp_all [Reg.sameSig]
+  omega
+
+/-- **End-to-end, kEncodingBaseCSel** -/
+theorem csel_end_to_end (r : InstRow) (hr : r ∈ instTable.toList) (henc : r.enc = encBaseCSel)
+    (d : BaseCSelRow) (hd : baseCSel[r.idx]? = some d) (o0 o1 o2 : Reg) (cond : BitVec 64) (p : Nat)
+    (wf0 : GpWellFormed o0) (wf1 : GpWellFormed o1) (wf2 : GpWellFormed o2)
+    (ws : List (BitVec 32)) (pc : BitVec 64) (h : emitCSel d.opcode o0 o1 o2 cond = .ok ws) :
+    judge (formsNamed r.name) r.name [.reg o0, .reg o1, .reg o2, .imm cond p] pc (.ok ws) = .full := by
+  have hrow := (List.all_eq_true.mp rows_baseCSel_have_forms) r hr
+  simp only [henc, bne_self_eq_false, Bool.false_or, hd] at hrow
+  obtain ⟨t0, e1, e2, i0, i1, i2, hcond, hws⟩ := csel_accepts_facts d.opcode o0 o1 o2 cond ws h
+  simp only [cselRowOk, Bool.and_eq_true, beq_iff_eq] at hrow
+  obtain ⟨hclean, hall⟩ := hrow
+  have r0 := gp_rt_of_check o0 kWX (by decide) t0
+  have m0 : o0.rt ∈ [rtGp32, rtGp64] := by simp; exact r0
+  have hcombo := (List.all_eq_true.mp hall) o0.rt m0
+  rw [List.any_eq_true] at hcombo
+  obtain ⟨f, hfmem, hform⟩ := hcombo
+  have ex : xOf { rt := o0.rt, id := 0 } kWX = xOf o0 kWX := rfl
+  rw [ex] at hform
+  have t1 : checkGpType o1 kWX = true := by unfold checkGpType at *; rw [← e1]; exact t0
+  have t2 : checkGpType o2 kWX = true := by unfold checkGpType at *; rw [← e2, ← e1]; exact t0
+  have g0 := gpOk_of_checks o0 kWX idZR (by decide) (Or.inr rfl) wf0 t0 i0
+  have g1 := gpOk_of_checks o1 kWX idZR (by decide) (Or.inr rfl) wf1 t1 i1
+  have g2 := gpOk_of_checks o2 kWX idZR (by decide) (Or.inr rfl) wf2 t2 i2
+  rw [← e1] at g1
+  rw [← e2, ← e1] at g2
+  have hz : (idZR == idSP) = false := by decide
+  rw [hz] at g0 g1 g2
+  have hcf : condCodeToOpcodeField cond.toNat = condField cond.toNat := cond_field_agrees ⟨cond.toNat, hcond⟩
+  have hdesc := csel_describes f _ (w32 d.opcode) (BitVec.ofNat 32 (xOf o0 kWX)) o0 o1 o2 cond p pc hform hclean g0 g1 g2 hcond
+  have hfull : f.isPartial = false := by
+    simp only [isCSelForm, Bool.and_eq_true, beq_iff_eq] at hform
+    obtain ⟨⟨⟨⟨⟨⟨⟨⟨⟨hops, _⟩, _⟩, _⟩, _⟩, hfree⟩, _⟩, _⟩, _⟩, _⟩ := hform
+    simp [Form.isPartial, hops, OpSpec.isPartial, hfree]
+  subst hws
+  have hany : (formsNamed r.name).any (fun f => !f.isPartial && describes f [.reg o0, .reg o1, .reg o2, .imm cond p] pc
+      (w32 d.opcode ||| addImm (xOf o0 kWX) 31 ||| addReg o2.id 16 ||| addImm (condCodeToOpcodeField cond.toNat) 12 ||| addReg o1.id 5 ||| addReg o0.id 0)) = true := by
+    rw [List.any_eq_true]
+    exact ⟨f, hfmem, by simp [hfull]; rw [hcf]; simpa [addImm, addReg] using hdesc⟩
+  simp [judge, hany]
+
 end AsmjitVerif.C02
